@@ -101,3 +101,64 @@ def w7(facts, tier):
             versions = [v for v in versions if v >= 1] or [1]
         st, detail, n = check_schema_vs_writer(facts, W, ty, sf, sts, wf, wts, versions, W.guard_assignments(guards))
         yield ob(["C12"], "W7", ty, st, where(sf), f"{ty}: {detail}", nontrivial=(st != "undecided"))
+
+
+@rule("W7d", ["C12"], floor=250, doc="derived schemas: for every corpus definition and version, the language the derived (field-wise) writer emits is "
+      "contained in the language a schema-driven reader parses from the derived schema (fields in order with the right types, variant "
+      "discriminants and discriminant width, version ranges)")
+def w7d(facts, tier):
+    from ..rules.derive_rules import corpus_types, impl_fn
+    W = wire.WireAnalysis(facts)
+    agg = {}
+    for m in corpus_types(facts):
+        ty = m["id"]
+        sf = impl_fn(facts, ty, WS, "schema")
+        wf = impl_fn(facts, ty, "savefile::Serialize", "serialize")
+        if sf is None or wf is None:
+            continue
+        cur = m.get("cur_version", 0)
+        worst = None
+        n = 0
+        und = None
+        for v in range(0, cur + 2):
+            an = Analyzer(facts, wire.wire_classifier)
+            sr = SchemaReader(facts, an, {}, v)
+            for p in sf["params"][:1]:
+                if p.get("pat") and p["pat"].get("k") == "Bind":
+                    sr.verenv[p["pat"]["v"]] = ("ver",)
+            try:
+                ls = wire.canon(sr.lang(sf["body"], {}))
+            except Undecided as e:
+                und = str(e)
+                continue
+            lw, _, _, _ = W.lang(wf, v, {("Packed", ty): False}, {})
+            if lw == rx.VOID:
+                continue   # a plain Removed field would have to be written: the writer diverges at this version
+            ok, word, a, b = W.contains_modulo_expansion(lw, ls, v, {})
+            n += 1
+            if ok is not True and worst is None:
+                worst = (ok, v, word, a, b)
+        if worst is not None:
+            ok, v, word, a, b = worst
+            cause = None
+            if m["kind"] == "struct" and any(f.get("conv") and f["conv"]["from"] <= v <= f["conv"]["to"] for f in m["fields"]):
+                cause = "retyped-field-written-at-older-version"
+            if m["kind"] == "enum" and len(m["variants"]) > 256:
+                cause = "enum-discriminant-wider-than-u8"
+            if cause and ok is False:
+                agg.setdefault(cause, []).append((ty, v, rx.show_word(word), sf))
+                continue
+            yield ob(["C12"], "W7d", ty, "violation" if ok is False else "undecided", where(sf),
+                     f"{ty} at version {v}: the derived writer emits [{rx.show_word(word)}] which a reader driven by the derived schema cannot "
+                     f"parse; writer: {rx.show(a)[:240]} ; schema describes: {rx.show(b)[:240]}", program=ty, version=v)
+        elif und and n == 0:
+            yield ob(["C12"], "W7d", ty, "undecided", where(sf), f"derived schema builder not readable: {und}", program=ty)
+        else:
+            yield ob(["C12"], "W7d", ty, "pass", where(sf), f"writer ⊆ schema language at {n} version(s)", program=ty)
+    MSG = {"retyped-field-written-at-older-version": "a field whose type was changed with savefile_versions_as is simply omitted when the value is "
+           "written at a version inside the conversion range, while schema(v) still describes the old type there",
+           "enum-discriminant-wider-than-u8": "Variant.discriminant is a u8: for enums with more than 256 variants the schema's discriminants alias "
+           "(variant 256 is recorded as 0) although the writer emits 2-byte discriminants"}
+    for cause, ws in sorted(agg.items()):
+        yield ob(["C12"], "W7d", cause, "violation", where(ws[0][3]), f"{MSG[cause]}; {len(ws)} corpus definition(s), e.g. {ws[0][0]} at version "
+                 f"{ws[0][1]}: writer emits [{ws[0][2]}]", witnesses=[w[0] for w in ws[:20]])
